@@ -22,7 +22,7 @@ pub fn for_harness(name: &str, vals: &[Vec<u8>]) -> Option<bool> {
             Some(sc::verify_with_short_fixed_commitments(2usize.saturating_sub(count)))
         }
         // values: nr
-        "h_arch::configure_nr_pow2range_any" => Some(sc::vk_read_with_nr_pow2range_cols(le(&vals[0]) as u8)),
+        "h_arch::configure_nr_pow2range_any" | "h_arch::pow2range_configure_column_count" => Some(sc::vk_read_with_nr_pow2range_cols(le(&vals[0]) as u8)),
         _ => None,
     }
 }
